@@ -47,6 +47,18 @@ Oracle readings recorded here (see also the final report):
     the rest of a sequence fires before the harness got both halves in (observed, not guessed: PtyHarness records
     every parse_input(wait_for_more=False)), the machine was too slow for the step to mean anything and the session's
     order verdict is dropped ("slipped") instead of being reported.
+  * "each input event is passed, in arrival order, to ..." also holds for the events that arrive AFTER the display was
+    stopped and started again while run() is in progress: the unhandled-input handler of the test application "shells
+    out" on the key "S" (loop.screen.stop(); loop.screen.start() - the documented way to run an external program), and
+    step ["suspend"] is a job-control suspend/resume (SIGTSTP, then SIGCONT: the real screen's own handlers stop and
+    restart it; with the default SIGTSTP disposition the session process really is stopped and a helper process
+    continues it).  Every later stimulus of the session (keys on the tty, a resize through the screen's resize pipe,
+    mouse reports, watch_pipe data) must still reach the application, in order.  Reading for the suspend step: urwid
+    reports a resume to the application as one batch ["window resize"] (raw_display's SIGCONT handler runs its SIGWINCH
+    handler so that the screen is repainted); that batch is what the step delivers.  The scripted screen with
+    event-loop support follows the protocol of BaseScreen for such screens: it announces INPUT_DESCRIPTORS_CHANGED from
+    its _start/_stop hooks and hands its descriptor to the event loop only while it is started.  On the scripted
+    screens (no signal handlers of their own) a suspend step is the key "S".
 """
 from __future__ import annotations
 
@@ -234,6 +246,12 @@ class Harness:
             return True
         if key == "Q":
             raise urwid.ExitMainLoop()
+        if key == "S":
+            # "shell out": the display is stopped, an external program would run here, the display is started again
+            self.trace.append(["restart"])
+            self.loop.screen.stop()
+            self.loop.screen.start()
+            return True
         return None
 
     def alarm_cb(self, loop, data):
@@ -474,9 +492,14 @@ def _fake_screen_classes():
 
         def _start(self):
             self.H.trace.append(["start"])
+            self.descriptors_changed()
 
         def _stop(self):
             self.H.trace.append(["stop"])
+            self.descriptors_changed()
+
+        def descriptors_changed(self):
+            pass
 
         def set_mouse_tracking(self, enable=True):
             self.H.trace.append(["mouse_tracking", bool(enable)])
@@ -517,6 +540,18 @@ def _fake_screen_classes():
             self.handles = []
             self.pending = []
 
+        def descriptors_changed(self):
+            # BaseScreen's protocol for screens that support event loops (BaseScreen.signals): the start / stop hooks
+            # announce that the set of descriptors to watch has changed ...
+            from urwid import signals
+            from urwid.display.common import INPUT_DESCRIPTORS_CHANGED
+
+            signals.emit_signal(self, INPUT_DESCRIPTORS_CHANGED)
+
+        def get_input_descriptors(self):
+            # ... and the screen has descriptors to watch exactly while it is started
+            return [self.rd] if self.started else []
+
         def hook_event_loop(self, event_loop, callback):
             self.H.trace.append(["hook"])
 
@@ -527,7 +562,7 @@ def _fake_screen_classes():
                     return
                 callback(self.pending.pop(0), [])
 
-            self.handles = [event_loop.watch_file(self.rd.fileno(), wrapper)]
+            self.handles = [event_loop.watch_file(fd.fileno(), wrapper) for fd in self.get_input_descriptors()]
 
         def unhook_event_loop(self, event_loop):
             self.H.trace.append(["unhook"])
@@ -765,6 +800,18 @@ class PtyHarness(Harness):
                 H.trace.append(["start"])
                 return super()._start(*a, **kw)
 
+            def _sigtstp_handler(self, *a, **kw):
+                try:
+                    return super()._sigtstp_handler(*a, **kw)
+                finally:
+                    H.tstp_done += 1
+
+            def _sigcont_handler(self, *a, **kw):
+                try:
+                    return super()._sigcont_handler(*a, **kw)
+                finally:
+                    H.cont_done += 1
+
             def parse_input(self, event_loop, callback, codes, wait_for_more=True):
                 if not wait_for_more:
                     # complete_wait is over: the screen gives up waiting for the rest of a sequence
@@ -790,6 +837,7 @@ class PtyHarness(Harness):
 
         self.stopping = False
         self.winch_seen = 0
+        self.tstp_done = self.cont_done = 0
         self.screen = RecScreen(
             input=inp, output=out, bracketed_paste_mode=cfg["paste"], focus_reporting=cfg["focus"]
         )
@@ -846,6 +894,8 @@ class PtyHarness(Harness):
             self._set_winsize(step[1], step[2])
             self.size = (step[1], step[2])
             os.kill(os.getpid(), signal.SIGWINCH)
+        elif step[0] == "suspend":
+            self._suspend_resume()
         elif step[0] == "mixed":
             # the user types, and the terminal is resized before the application gets to read: the bytes are
             # readable on the tty AND the screen's SIGWINCH handler has run when the loop next looks, so the screen
@@ -862,6 +912,46 @@ class PtyHarness(Harness):
                 time.sleep(0.0005)
         else:
             raise ValueError(step)
+
+    def _suspend_resume(self):
+        """Job control: SIGTSTP to this process, then SIGCONT.  The screen's own handlers do the rest (stop the screen,
+        hand the signal on to the previous disposition, restart the screen on SIGCONT).  If the previous disposition is
+        the default one the process really stops inside the handler: a helper process (forked first) sees that in
+        /proc and sends the SIGCONT.  Otherwise (handler of the application's own, SIG_IGN, or a process group whose
+        SIGTSTP is discarded by the kernel) SIGCONT is sent from here once the SIGTSTP handler is through."""
+        pid = os.getpid()
+        helper = os.fork()
+        if helper == 0:
+            try:
+                t_end = time.time() + 3.0
+                while time.time() < t_end:
+                    with open("/proc/%d/stat" % pid) as f:
+                        state = f.read().rsplit(")", 1)[1].split()[0]
+                    if state in ("T", "t"):
+                        os.kill(pid, signal.SIGCONT)
+                        break
+                    time.sleep(0.001)
+            finally:
+                os._exit(0)
+        t0, c0 = self.tstp_done, self.cont_done
+        self.trace.append(["sigtstp"])
+        os.kill(pid, signal.SIGTSTP)
+        t_end = time.time() + 3.0
+        while self.tstp_done == t0 and time.time() < t_end:
+            time.sleep(0.0005)
+        by = "helper (the process was stopped)"
+        if self.cont_done == c0:
+            by = "harness"
+            os.kill(pid, signal.SIGCONT)
+            t_end = time.time() + 3.0
+            while self.cont_done == c0 and time.time() < t_end:
+                time.sleep(0.0005)
+        self.trace.append(["sigcont-done", self.tstp_done - t0, self.cont_done - c0, bool(self.screen.started), by])
+        try:
+            os.kill(helper, signal.SIGKILL)
+            os.waitpid(helper, 0)
+        except OSError:
+            pass
 
     def _read_until_marker(self, marker, timeout=5.0):
         """Write *marker* directly to the tty and read the master side up to it; returns the bytes received since the
@@ -1140,6 +1230,20 @@ def judge(case, res):
     # ---- exit clause (also carries hangs)
     if res.get("hung"):
         out["C12/exit"] = (False, "run() did not end: %s" % res["hung"], True)
+        # a session that hangs because a stimulus that was fed never reached the application (every callback before it
+        # as expected, the loop then waits for ever): that is the order clause - "each input event is passed ..."
+        if not inj or inj["kind"] != "render":
+            exp, _end = M.expected_events(case)
+            got = [e for e in trace if e[0] in CALLBACK_EVENTS]
+            fed = [e[1] for e in trace if e[0] == "feed"]
+            if fired is None and len(got) < len(exp) and got == exp[: len(got)] and fed:
+                restarts = sum(1 for e in trace if e[0] in ("restart", "sigtstp"))
+                out["C12/order"] = (
+                    False,
+                    "stimulus #%d %r was fed while the loop waited%s and never reached the application: expected next callback %r, the loop waits for ever"
+                    % (fed[-1], case["session"][fed[-1]], (" (after %d stop/start of the display inside run())" % restarts) if restarts else "", exp[len(got)]),
+                    True,
+                )
         return out
     if fired is None or inj["exc"] == "exit":
         ok = res.get("outcome") == "returned"
@@ -1260,6 +1364,11 @@ def _cycle(order, sizes):
         "L": ["keys", ["ctrl l", "z", "P", "a", "c"]],
         "O": ["keys", ["P", ["mouse press", 1, 2, 1], ["mouse press", 1, 9, 3], "x", "T", "c"]],
         "Z": ["keys", ["z"]],
+        # the display is stopped and started again while run() is in progress: by the unhandled-input handler ("S":
+        # last of its batch / followed by more events of the same batch), by job control (U)
+        "S": ["keys", ["x", "S"]],
+        "s": ["keys", ["S", "a", ["mouse press", 1, 0, 0], "x"]],
+        "U": ["suspend"],
     }
     # a resize that shares its batch with other events: after handled + unhandled keys (X), before a mouse event and
     # a key (Y), between an unhandled key and the key that schedules an alarm (W)
@@ -1292,6 +1401,12 @@ def for_pty(session):
     return out
 
 
+def for_fake(session):
+    """The same session for a scripted screen: it has no job-control handlers of its own, so a suspend/resume is the
+    application restarting the display itself (key "S")."""
+    return [["keys", ["S"]] if st[0] == "suspend" else st for st in session]
+
+
 def make_session(order, cycles=7, pipes=True):
     sizes = [[18, 5], [16, 4], [20, 6]]
     s = []
@@ -1304,7 +1419,7 @@ def make_session(order, cycles=7, pipes=True):
 
 
 def random_session(r, n, pipes=True):
-    keys = ["a", "x", "z", "T", "P", "c", "ctrl l", "y"]
+    keys = ["a", "x", "z", "T", "P", "c", "ctrl l", "y", "S"]
     sizes = [[18, 5], [16, 4], [20, 6], [17, 7]]
     s = []
     for _ in range(n):
@@ -1328,8 +1443,10 @@ def random_session(r, n, pipes=True):
                 b.append(["mouse press", r.choice([1, 2]), r.randint(0, 6), r.randint(0, 3)])
             b.insert(r.randint(0, len(b)), "window resize")
             s.append(["mixed", b, *r.choice(sizes)])
-        else:
+        elif t < 0.95:
             s.append(["keys", ["T", "T"]])
+        else:
+            s.append(["suspend"])
     s.append(["keys", ["Q"]])
     return s
 
@@ -1403,6 +1520,13 @@ def direct_cases(quick):
     return out
 
 
+# Sessions in which the display is stopped and started again while run() is in progress (see _cycle: s, S, U); what
+# follows a restart: more events of the same batch, keys, a resize (the screen's resize pipe), mouse reports, an alarm,
+# watch_pipe data, a resize inside a batch, the redraw key.
+RESTART_ORDERS = ["sKRUMTPSXL", "UKSRsTMUL", "SUsPKRYU"]
+RESTART_CYCLES = 4
+
+
 def injections(max_idx=6, excs=EXCS):
     return [{"kind": k, "idx": i, "exc": x} for k in KINDS for i in range(max_idx + 1) for x in excs]
 
@@ -1437,13 +1561,13 @@ def build_cases(tier, seed):
     for li, loop in enumerate(loops):
         for pop in (False, True):
             for oi, order in enumerate(orders):
-                sess = make_session(order)
+                sess = for_fake(make_session(order))
                 add("fake_hook", loop, pop, sess, None)
                 if oi == 0 or (not quick and oi < 3):
                     for inj in grid(not quick or loop in core, li + int(pop)):
                         add("fake_hook", loop, pop, sess, inj)
             for _ in range(n_random):
-                sess = random_session(r, 14 if quick else 24)
+                sess = for_fake(random_session(r, 14 if quick else 24))
                 add("fake_hook", loop, pop, sess, None)
                 if not quick:
                     for inj in injections(3, ("exc",)):
@@ -1451,14 +1575,14 @@ def build_cases(tier, seed):
     # (a') fake screen without external event-loop support (MainLoop's own SelectEventLoop, get_input)
     for pop in (False, True):
         for oi, order in enumerate(orders):
-            sess = make_session(order, pipes=False)
+            sess = for_fake(make_session(order, pipes=False))
             add("fake_nohook", "select", pop, sess, None)
             if oi == 0 or not quick:
                 for inj in injections():
                     if inj["kind"] != "pipe":
                         add("fake_nohook", "select", pop, sess, inj)
         for _ in range(n_random):
-            add("fake_nohook", "select", pop, random_session(r, 14, pipes=False), None)
+            add("fake_nohook", "select", pop, for_fake(random_session(r, 14, pipes=False)), None)
     # (b) the real raw_display.Screen on a pty; terminal configuration and pop_ups rotate through the grid
     n = 0
     for li, loop in enumerate(loops):
@@ -1484,6 +1608,28 @@ def build_cases(tier, seed):
             for g in range(len(SPLITS)):
                 for inj in ({"kind": "keypress", "idx": 3, "exc": "exc"}, {"kind": "unhandled", "idx": 2, "exc": "exit"}):
                     add("pty", loop, bool(g % 2), split_session(g), inj, PTY_CFGS[(g + li + 1) % len(PTY_CFGS)])
+    # (e) the display is stopped and started again while run() is in progress (the application "shells out" from its
+    # unhandled-input handler; job-control suspend / resume on the real screen): every loop, scripted screen with
+    # pop_ups on/off, the real screen in every terminal configuration (all three initial SIGTSTP/SIGCONT dispositions);
+    # an exception out of each callback kind after restarts
+    for li, loop in enumerate(loops):
+        for oi, order in enumerate(RESTART_ORDERS[:1] if quick else RESTART_ORDERS):
+            sess = make_session(order, cycles=RESTART_CYCLES)
+            for pop in (False, True):
+                add("fake_hook", loop, pop, for_fake(sess), None)
+            for ci, cfg in enumerate(PTY_CFGS):
+                add("pty", loop, bool((ci + li + oi) % 2), for_pty(sess), None, cfg)
+            n = 0
+            for ki, k in enumerate(KINDS):
+                for i in (1, 3, 5) if quick else range(7):
+                    inj = {"kind": k, "idx": i, "exc": EXCS[(ki + i + li) % len(EXCS)]}
+                    add("fake_hook", loop, bool((n + li) % 2), for_fake(sess), inj)
+                    if not quick or loop in core:
+                        add("pty", loop, bool((n + li + 1) % 2), for_pty(sess), inj, PTY_CFGS[(n + li) % len(PTY_CFGS)])
+                    n += 1
+    for oi, order in enumerate(RESTART_ORDERS[:1] if quick else RESTART_ORDERS):
+        for pop in (False, True):
+            add("fake_nohook", "select", pop, for_fake(make_session(order, cycles=RESTART_CYCLES, pipes=False)), None)
     # (d) the real screen without a MainLoop: every option combination, start ... stop
     cases.extend(direct_cases(quick))
     return cases, loops
@@ -1522,7 +1668,11 @@ def run(tier="quick", seed=0) -> dict:
         "KeyboardInterrupt at invocation index 0..6 of %s; pty: %d groups of 6 escape sequences (arrows, function keys, "
         "modified arrows, SS3, ESC-prefixed key, X10 mouse reports) split over two reads at byte offsets 1..5, the loop "
         "kept running %.1f s after them, a lone ESC; %d start/stop histories of the screen alone (alternate buffer x "
-        "paste x focus x mouse never/before/after/on-off x output to pty/pipe, restarts)"
+        "paste x focus x mouse never/before/after/on-off x output to pty/pipe, restarts); the display stopped and started "
+        "again INSIDE run() (unhandled-input handler does screen.stop(); screen.start() on key 'S' - alone, last or first "
+        "of its batch; job-control SIGTSTP/SIGCONT on the pty under SIG_DFL [real stop, continued by a helper process] / "
+        "SIG_IGN / an application handler), up to %d restarts per session followed by keys, mouse reports, a resize, "
+        "alarms, watch_pipe data, every loop x all %d pty configurations x scripted screens, exceptions injected after restarts"
         % (
             len(cases),
             ",".join(loops),
@@ -1533,6 +1683,8 @@ def run(tier="quick", seed=0) -> dict:
             len(SPLITS),
             LATE_S,
             len(direct_cases(tier == "quick")),
+            sum(1 for st in make_session(RESTART_ORDERS[0], cycles=RESTART_CYCLES) if st[0] == "suspend" or (st[0] == "keys" and "S" in st[1])),
+            len(PTY_CFGS),
         )
     )
     checks = {name: Check(name, rule, exhaustive=True, bound=bound) for name, rule in CHECKS.items()}
